@@ -125,16 +125,29 @@ func c07Run(files []string, contents []string) (gens []string, code int) {
 	verifSetArgs(args)
 	code = verifRunMain(main)
 	for _, f := range files {
-		if len(f) > 3 && f[len(f)-3:] == ".fo" {
-			g, ok := verifFile("gen_" + f[:len(f)-3] + ".go")
-			verifAssert(ok, "every X.fo argument yields gen_X.go")
+		dir, name := "", f
+		if k := lastIndexByte(f, '/'); k >= 0 {
+			dir, name = f[:k+1], f[k+1:]
+		}
+		if len(name) > 3 && name[len(name)-3:] == ".fo" {
+			g, ok := verifFile(dir + "gen_" + name[:len(name)-3] + ".go")
+			verifAssert(ok, "every X.fo argument yields gen_X.go next to it")
 			gens = append(gens, g)
 		} else {
-			_, ok := verifFile("gen_" + f[:len(f)-4] + ".go")
+			_, ok := verifFile(dir + "gen_" + name[:len(name)-4] + ".go")
 			verifAssert(!ok, "a .foi argument yields no file")
 		}
 	}
 	return
+}
+
+func lastIndexByte(s string, c byte) int {
+	for i := len(s) - 1; i >= 0; i-- {
+		if s[i] == c {
+			return i
+		}
+	}
+	return -1
 }
 
 func Harness_C07_Context() {
@@ -368,16 +381,19 @@ func Harness_C07_TypeNamingNeighbour() {
 	}
 	var files, contents []string
 	fileOfTarget := 0
-	switch verifChoice("place", 4) {
+	switch verifChoice("place", 5) {
+	case 4: // files in a sub-directory: the output goes next to each
+		files, contents = []string{"sub/lib.defs.fo", "sub/dir.v1/use.fo"}, []string{base + tpl.extra, "package main\n\n" + tpl.target}
+		fileOfTarget = 1
 	case 0: // before the target
 		files, contents = []string{"v0.fo"}, []string{base + tpl.extra + "\n" + tpl.target}
 	case 1: // after the target
 		files, contents = []string{"v0.fo"}, []string{base + tpl.target + "\n" + tpl.extra}
-	case 2: // at the end of an earlier file
-		files, contents = []string{"v0.fo", "v1.fo"}, []string{base + tpl.extra, "package main\n\n" + tpl.target}
+	case 2: // at the end of an earlier file (file names with further dots: X.fo yields gen_X.go for the whole X)
+		files, contents = []string{"pkg.types.fo", "pkg.app.fo"}, []string{base + tpl.extra, "package main\n\n" + tpl.target}
 		fileOfTarget = 1
 	default: // in a file of its own between the dependencies and the target
-		files, contents = []string{"v0.fo", "v1.fo", "v2.fo"}, []string{base, "package main\n\n" + tpl.extra, "package main\n\n" + tpl.target}
+		files, contents = []string{"m.v0.fo", "m.v1.x.fo", "m.fo"}, []string{base, "package main\n\n" + tpl.extra, "package main\n\n" + tpl.target}
 		fileOfTarget = 2
 	}
 	vg, vcode := c07Run(files, contents)
